@@ -443,6 +443,65 @@ Section Thms.
       left. cbn [Persist.replay fold_left kv_apply]. apply aget_adel_same.
   Qed.
 
+  (** Start-up leaves the resumption cache CLEAN, in memory and in the store, whatever the store held:
+      every record is of a fabric in the table, and the stored cache (if any) reads back as exactly
+      the cache in memory.  (A cut inside RemoveFabric leaves records of a fabric that is gone; the
+      next start-up must not leave them for the one after it.) *)
+  Lemma filter_length_le' : forall (A : Type) (f : A -> bool) (l : list A), (length (filter f l) <= length l)%nat.
+  Proof using Type.
+    clear. intros A f. induction l as [|a l IH]; cbn [filter length]; [lia|]. destruct (f a); cbn [length]; lia.
+  Qed.
+
+  Lemma filter_length_all : forall (A : Type) (f : A -> bool) (l : list A),
+    length (filter f l) = length l -> forall x, In x l -> f x = true.
+  Proof using Type.
+    clear. intros A f. induction l as [|a l IH]; cbn [filter length In]; intros H x Hx; [contradiction|].
+    destruct (f a) eqn:Ea.
+    - cbn [length] in H. destruct Hx as [<-|Hx]; [assumption|]. apply IH; [lia|assumption].
+    - pose proof (filter_length_le' A f l). lia.
+  Qed.
+
+  Theorem startup_cache_clean : forall (m : kv) r ops,
+    startup m = Some (r, ops) ->
+    (forall x, In x (r_resump r) -> amem (r_fabs r) (fst x) = true) /\
+    match aget (replay m ops) K_RESUMP with
+    | None => r_resump r = []
+    | Some b => dec_res b = Some (r_resump r)
+    end.
+  Proof.
+    intros m r ops Hs.
+    unfold Persist.startup, load_opt in Hs.
+    destruct (load_fabs blob dec_fab fab_indices m []) as [fabs|]; [|discriminate].
+    destruct (match aget m K_BASIC with Some b0 => dec_basic b0 | None => Some basic_default end) as [bs|]; [|discriminate].
+    destruct (load_resump m fabs) as [res' ops'] eqn:El.
+    repeat match type of Hs with
+    | match ?x with _ => _ end = Some _ => destruct x eqn:?; try discriminate
+    | (let (_, _) := ?x in _) = Some _ => destruct x eqn:?
+    end.
+    injection Hs as <- <-. cbn [r_fabs r_resump].
+    match goal with E : resume_subs _ _ _ m fabs = Some (?sb, ?o2) |- _ =>
+      pose proof (resume_subs_subop _ _ _ _ E) as Hsub2; rename o2 into ops2 end.
+    destruct (replay_subops blob enc_sub ops2 (replay m ops') Hsub2) as [Hout2 _].
+    assert (Hres : aget (replay m (ops' ++ ops2)) K_RESUMP = aget (replay m ops') K_RESUMP).
+    { rewrite replay_app. apply Hout2. unfold in_subs, K_RESUMP, SUBS_START, NSUBS. lia. }
+    rewrite Hres. clear Hres Hout2 Hsub2.
+    unfold Persist.load_resump in El.
+    destruct (aget m K_RESUMP) as [b|] eqn:Eb.
+    - destruct (dec_res b) as [lr|] eqn:Ed.
+      + destruct (length (filter (fun r => amem fabs (fst r)) lr) =? length lr)%nat eqn:El2; injection El as <- <-;
+          cbn [Persist.replay fold_left kv_apply].
+        * split.
+          -- apply Nat.eqb_eq in El2. intros x Hx. apply (filter_length_all _ _ _ El2 x Hx).
+          -- rewrite Eb. assumption.
+        * split.
+          -- intros x Hx. apply filter_In in Hx. tauto.
+          -- rewrite aget_aset_same. apply rt_res.
+      + injection El as <- <-. split; [intros x []|].
+        cbn [Persist.replay fold_left kv_apply]. rewrite aget_adel_same. reflexivity.
+    - injection El as <- <-. split; [intros x []|].
+      cbn [Persist.replay fold_left kv_apply]. rewrite Eb. reflexivity.
+  Qed.
+
   (** every store goes to the key of a fabric in the table, to one of the singleton keys or to a
       subscription slot *)
   Theorem store_keys : forall st o k b, In (KStore k b) (kvlog (snd (step st o))) ->
